@@ -229,7 +229,8 @@ class Group:
         # members that were exit()ed before are still to be joined or killed
         while self or self._gateways_to_join:
             vias: set[str] = set()
-            for gw in self:
+            # a gateway that is still to be joined is joined through its via
+            for gw in [*self, *self._gateways_to_join]:
                 if gw.spec.via:
                     vias.add(gw.spec.via)
             for gw in self:
